@@ -16,6 +16,14 @@ CHECKS = {
    text='The client upload writer (buffering, PATCH at the acknowledged offset, final PUT, status GET) composed with the registry session model is a TLA+ module (OciClientWriter); TLC checks exhaustively, for every partition of up to 4 bytes into writes, every chunk-size hint and every close/resume pattern, that a contract-following caller is never refused and that a successful commit stores exactly the concatenation of the written bytes, and for an arbitrary caller that a refused (416) step leaves the session unchanged and a failing call stores nothing. TLC-generated caller scenarios and seeded-random upload-heavy histories (wrong offsets, wrong digests, several sessions, block contents) run on mem, one and two HTTP hops (with byte-sized chunk minimums), ocidebug and the unifier; every Write/Close/Resume/Size/Commit result and the blob read back is validated by TLC against that model.',
    note='Excluded as the property says: resume by asking after exactly one byte. No use of a writer after Commit / Cancel over HTTP. Byte-sized chunk boundaries over HTTP use a backend wrapper reporting ChunkSize 1..3. ' + TRUST,
    technique='TLA+ model of client writer + registry sessions checked with TLC; TLC-generated upload scenarios replayed on real stacks; traces validated by TLC'),
+ 'C07': dict(engine='OciError', design='5/C07',
+   text='TLC exhaustively checks the OciError laws (StatusPerTable, IsPreserved, Code/DetailPreserved, first-hop message rule, MessageFixedPoint, HEAD rule) over the whole case domain - 18 codes x leaf/message shapes x wrappings x sampled statuses x carrier kinds x 0-3 hops - in a design mode without exceptions and in a model of the current code whose deviations are confined to named cells. Every exported case and seeded-random error trees are executed on real 3-hop ociclient->ociserver stacks behind each Interface method as carrier; each recorded case (errors.Is vector, status, code, detail, tokenised message at every level, raw wire taps) is validated by TLC against OciErrorTrace.',
+   note='Sampled statuses (5 quick, 10 thorough, random 400-599); joined errors judged on the primary identity; messages modelled as token sequences; K2 and K2b (the status-416 rule of httpError.Is) are listed known findings identified by relaxation constants. ' + TRUST,
+   technique='TLA+ error-algebra model checked with TLC; TLC-exported cases replayed on real multi-hop stacks; recorded traces validated by TLC'),
+ 'C08': dict(engine='OciMemConc', design='5/C08',
+   text='An implementation-shaped TLA+ model of ocimem (one step per critical section; Buffer.Commit in two steps) with an embedded linearizability monitor is checked by TLC over all interleavings (Linearizable, StoredMatchesKey, TagNeverFalselyMissing); every schedule of the model is replayed on the real ocimem with verif yield hooks as scheduler gates; seeded stress batches (2-5 goroutines, shared upload session, directly and through ociserver) run under the Go race detector; for every recorded history (invocation/response events ordered by a global atomic sequence number) TLC searches a placement of linearization points of the sequential specification OciRegistry (LinTrace.tla).',
+   note='Data-race freedom is what the race detector observes on the schedules run (TLA+ has no Go memory model). K3 (Commit check/store window, API-level) is a listed known finding identified by the relaxation K3_CommitTwoPhase. ' + TRUST,
+   technique='TLA+ concurrent model with linearizability monitor (TLC); model schedules replayed with yield-point hooks; linearizability of recorded histories decided by TLC; Go race detector'),
  'C14': dict(engine='OciRegistry', design='5/C14',
    text='TLC checks on the reference model, for every history over the small universes, the step properties TagStable, TaggedStays, ClosureKept (no step removes content reachable from a tag) and TaggedPresent in immutable-tags mode. Histories generated by TLC (including walks confined to pushes/deletes around one tagged closure) and seeded-random ones run on ocimem in immutable-tags mode (directly and behind a client/server hop) and through ocifilter.ReadOnly / Immutable over a pre-populated registry; after every call the projected state of the registry underneath must equal the model state (WrapApply / WrapProps in RegTrace.tla), so a moved or lost tag, a deleted protected item or a write through the read-only wrapper is rejected at the step where it happens.',
    note='"remains retrievable" read as an action property (DESIGN 5/C14, O1); references of a manifest are those of its bytes under the media type it is stored with; the concurrent clause relies on the C08 machinery. ' + TRUST,
@@ -30,8 +38,8 @@ ALL = ['C%02d' % i for i in range(1, 21)]
 m = dict(version=1,
   setup_cmd='./tools/setup.sh',
   hooks=dict(guard='verif', enable='go build -tags verif (the harness is built with the tag by every check)',
-             baseline_off_cmd='/verif/tools/baseline.sh /repo', source_commits=[], add_only=True),
-  engines=[dict(name='OciClientWriter', path='spec/OciClientWriter.tla', serves_properties=['C04'], kind_free_text='TLA+ model of the HTTP client upload writer over registry sessions; MC configs honest/any; OciClientWriterGen generates caller scenarios'), dict(name='OciRegistry', path='spec/OciRegistry.tla', serves_properties=['C01', 'C02', 'C03', 'C14'], kind_free_text='TLA+ reference model of the registry Interface; RegTrace.tla validates recorded executions; OciRegistryGen.tla generates histories')],
+             baseline_off_cmd='/verif/tools/baseline.sh /repo', source_commits=['4bf9b87'], add_only=True),
+  engines=[dict(name='OciError', path='spec/OciError.tla', serves_properties=['C07'], kind_free_text='TLA+ error algebra across client/server hops; OciErrorTrace validates recorded cases'), dict(name='OciMemConc', path='spec/OciMemConc.tla', serves_properties=['C08'], kind_free_text='implementation-shaped concurrent model of ocimem with linearizability monitor; LinTrace.tla decides linearizability of recorded histories against OciRegistry'), dict(name='OciClientWriter', path='spec/OciClientWriter.tla', serves_properties=['C04'], kind_free_text='TLA+ model of the HTTP client upload writer over registry sessions; MC configs honest/any; OciClientWriterGen generates caller scenarios'), dict(name='OciRegistry', path='spec/OciRegistry.tla', serves_properties=['C01', 'C02', 'C03', 'C14'], kind_free_text='TLA+ reference model of the registry Interface; RegTrace.tla validates recorded executions; OciRegistryGen.tla generates histories')],
   checks=[], not_applicable=[],
   notes='All verdicts come from executions of the real code that TLC rejects against a TLA+ specification; see DESIGN.md.')
 for pid in ALL:
